@@ -418,7 +418,8 @@ class CoopLock:
                 return False
             if self.owner is me:
                 pass  # self-deadlock on a plain lock: falls through to block (=> deadlock detected)
-            ok = s.block(lambda: self.owner is None, tmode=("idle" if timeout is not None and timeout >= 0 else None),
+            # a bounded wait may run out while the holder is merely slow: firing the timeout is a budgeted deviation ("tick")
+            ok = s.block(lambda: self.owner is None, tmode=("tick" if timeout is not None and timeout >= 0 else None),
                          what="lock %s" % self.name)
             if not ok:
                 return False
@@ -433,6 +434,8 @@ class CoopLock:
             if self.count == 0:
                 self.owner = None
             return
+        if self.owner is None or (self.reentrant and self.owner is not s.me()):
+            raise RuntimeError("cannot release un-acquired lock" if self.reentrant else "release unlocked lock")
         self.count -= 1
         if self.count <= 0:
             self.owner = None
